@@ -159,7 +159,8 @@ func parseExprWithPrecedence(lex *lexer.PeekingLexer, minPrec int) (Expression, 
 			}
 		case tok.Type == TokenTypeOpenBracket:
 			if minPrec >= 5 {
-				break
+				// the operand of `as` is a type name: the subscript applies to the converted expression
+				return lhs, nil
 			}
 			lhs, err = parseSubscript(lex, lhs)
 			if err != nil {
